@@ -18,7 +18,7 @@ from .fingerprint import fp_exception, fp_value, mask, order_free
 from .kernel import HarnessError, Streams, Trace, canon, h64
 
 PROP = 'C10'
-RUN_CLASSES = ('norecycle', 'recycle', 'lru')
+RUN_CLASSES = ('norecycle', 'recycle', 'lru', 'threads')
 SHRINK_BUDGET = 700
 
 C10_KINDS = ['list', 'set', 'vtuple', 'tuple', 'dict', 'tlist', 'tset', 'tseq', 'tvtuple', 'ttuple', 'tdict', 'tmap',
@@ -185,6 +185,8 @@ def _inject_refs(rng, ast, roots, depth=0):
 
 
 def gen_plan(seed: int, cls: str) -> dict:
+    if cls == 'threads':
+        return gen_plan_threads(seed)
     st = Streams(seed)
     rk, ro = st.rng('knobs'), st.rng('ops')
     knobs = gen_knobs(rk, cls)
@@ -673,29 +675,7 @@ class Exec:
 
     # -- structural invariants of the memo (quiescent: single-threaded here)
     def check_memo_invariants(self, i):
-        mc = self.seams.current_mc
-        cache = getattr(mc, 'cache', None)
-        maxsize = getattr(mc, 'maxsize', None)
-        if not isinstance(cache, dict) or maxsize is None:
-            return
-        if len(cache) > max(maxsize, 0):
-            raise Violation('lru_oversize', f"LRU memo holds {len(cache)} entries, maxsize={maxsize}")
-        root = getattr(mc, '_root', None)
-        if not isinstance(root, list):
-            return
-        n = 0
-        link = root[1]
-        while link is not root:
-            n += 1
-            if n > len(cache) + 1:
-                break
-            if cache.get(link[2]) is not link:
-                raise Violation('lru_corrupt', "LRU ring node's key does not map back to the node")
-            link = link[1]
-        if n != len(cache):
-            raise Violation('lru_corrupt', f"LRU ring has {n} nodes but the dict has {len(cache)}")
-        if len(cache) >= maxsize:
-            self.count('lru_full_states')
+        _check_kc_invariants(self.seams.current_mc, self.count)
 
 
 def tg_flat(p):
@@ -708,6 +688,8 @@ def tg_flat(p):
 
 
 def execute(plan, want_trace=False) -> dict:
+    if plan['cls'] == 'threads':
+        return execute_threads(plan, want_trace)
     ex = Exec(plan)
     try:
         ex.setup()
@@ -747,10 +729,359 @@ def run_one(cfg, item):
 
 
 # ---------------------------------------------------------------------------------------------
+# threads: several simulated caller threads under the baton scheduler
+
+TRACED = ('pane/util.py', 'pane/convert.py')
+
+
+def gen_plan_threads(seed: int) -> dict:
+    st = Streams(seed)
+    rk, ro = st.rng('knobs'), st.rng('ops')
+    target = rk.choice(['keycache', 'keycache', 'memo', 'memo', 'memo'])
+    knobs = {
+        'target': target,
+        'nthreads': rk.choice([2, 2, 3, 4]),
+        'maxsize': rk.choice([1, 1, 2, 2, 3, 4]) if target == 'keycache' else rk.choice([None, 1, 2, 3, 4, 8]),
+        'switch_p': rk.choice([0.05, 0.15, 0.3, 0.5, 0.8]),
+        'p_recycle': rk.choice([0.0, 1.0]),
+        'keyspace': rk.choice([2, 3, 4, 6]),
+        'valid_p': 0.85,
+    }
+    plan = {'prop': PROP, 'seed': seed, 'cls': 'threads', 'knobs': knobs, 'setup': [], 'threads': [], 'ops': []}
+    if target == 'keycache':
+        for _ in range(knobs['nthreads']):
+            plan['threads'].append([ro.randrange(knobs['keyspace']) for _ in range(ro.choice([2, 3, 4, 6, 8]))])
+        return plan
+    tg._p()
+    sym = tg.World()
+    kinds = rk.sample(C10_KINDS, rk.choice([3, 5, 8]))
+    roots = {}
+    ncls = 0
+    for _ in range(ro.choice([0, 1, 2])):
+        spec = tg.gen_class_spec(ro, sym, f'C{ncls}', [k for k in kinds if k not in ('tl', 'dl')], C10_SCALARS,
+                                 custom_specs=[None, None, ['one', 'dbl_int']])
+        sym.classes[spec['name']] = True
+        sym.class_specs[spec['name']] = spec
+        plan['setup'].append({'op': 'defclass', 'spec': spec})
+        ncls += 1
+    for j in range(ro.choice([1, 2, 3, 4])):
+        ast = tg.gen_type(ro, sym, kinds, C10_SCALARS, max_depth=2)
+        roots[f'r{j}'] = ast
+        plan['setup'].append({'op': 'build', 'name': f'r{j}', 't': ast})
+    hs = [None, None, ['one', 'dbl_int'], ['seq', 'upper_str', 'dbl_int']]
+    for _ in range(knobs['nthreads']):
+        ops = []
+        for _ in range(ro.choice([1, 2, 3, 4, 5])):
+            r = ro.random()
+            if r < 0.55:
+                rn = ro.choice(sorted(roots))
+                ops.append({'op': 'convert', 'root': rn, 'custom': ro.choice(hs),
+                            'data': tg.enc(tg.sample_value(roots[rn], sym, ro, valid_p=knobs['valid_p']))})
+            elif r < 0.85:
+                ast = tg.gen_type(ro, sym, [k for k in kinds if k not in ('cls', 'gen', 'enum')] or ['list'],
+                                  C10_SCALARS, max_depth=2)
+                ops.append({'op': 'inline', 't': ast, 'custom': ro.choice(hs),
+                            'data': tg.enc(tg.sample_value(ast, sym, ro, valid_p=knobs['valid_p']))})
+            else:
+                ops.append({'op': 'lookup', 'root': ro.choice(sorted(roots)), 'custom': ro.choice(hs)})
+        plan['threads'].append(ops)
+    return plan
+
+
+def _kc_func(x):
+    return ('v', x * x + 1)
+
+
+def _kc_key(x):
+    return ('k', x)
+
+
+def execute_threads(plan, want_trace=False) -> dict:
+    from .sched import Deadlock, Scheduler, SimRLock, StepLimit
+    knobs = plan['knobs']
+    s = seams()
+    st = Streams(plan['seed'])
+    trace = Trace()
+    counters = {}
+    violation = None
+    trace.add('knobs', knobs, 'threads')
+
+    def count(k, n=1):
+        counters[k] = counters.get(k, 0) + n
+
+    sched = Scheduler(st.rng('sched'), TRACED, switch_p=knobs['switch_p'], schedule=plan.get('schedule'))
+    sched.region_probe = lambda fr: fr.f_code.co_name == '__call__' and fr.f_code.co_filename.endswith('pane/util.py')
+    util = sys.modules['pane.util']
+    saved_locks = {n: util.__dict__.get(n) for n in ('RLock', 'Lock')}
+
+    def make_kc(f, key_f, maxsize):
+        KeyCache = getattr(util, 'KeyCache', None)
+        if KeyCache is None:
+            raise HarnessError("pane.util.KeyCache not found")
+        util.__dict__['RLock'] = sched.make_lock     # the lock seam: locks created by KeyCache are simulated
+        util.__dict__['Lock'] = sched.make_lock
+        try:
+            kc = KeyCache(f, key_f, maxsize=maxsize)
+        finally:
+            for n, v in saved_locks.items():
+                if v is None:
+                    util.__dict__.pop(n, None)
+                else:
+                    util.__dict__[n] = v
+        lk = getattr(kc, '_lock', None)
+        if lk is not None and not isinstance(lk, SimRLock):
+            kc._lock = sched.make_lock()
+        return kc
+
+    world = tg.World()
+    alloc = SimAlloc(st.rng('alloc'), knobs['p_recycle'], counters=counters)
+    results = []      # per thread: list of fingerprints
+    expected = []
+    kc = None
+    gc.collect()
+    gc.disable()
+    try:
+        alloc.calibrate()
+        s.install_id(alloc.sim_id)
+        if knobs['target'] == 'keycache':
+            kc = make_kc(_kc_func, _kc_key, knobs['maxsize'])
+            for keys in plan['threads']:
+                expected.append([['ok', fp_value(_kc_func(x))] for x in keys])
+
+            def body(keys, out):
+                def run():
+                    for x in keys:
+                        try:
+                            out.append(['ok', fp_value(kc(x))])
+                        except BaseException as e:  # noqa
+                            if isinstance(e, SystemExit):
+                                raise
+                            out.append(fp_exception(e))
+                return run
+            for keys in plan['threads']:
+                out = []
+                results.append(out)
+                sched.spawn(body(keys, out))
+        else:
+            pane = s.pane
+            conv_mod = s.convert_mod
+            for op in plan['setup']:
+                try:
+                    if op['op'] == 'defclass':
+                        tg.define_class(op['spec'], world)
+                    else:
+                        world.refs[op['name']] = tg.build(op['t'], world)
+                except HarnessError:
+                    raise
+                except Exception:
+                    count('setup_failed')
+            if knobs['maxsize'] is not None:
+                lru = s.make_lru(knobs['maxsize'])
+                if lru is None:
+                    count('lru_mode_unavailable')
+                else:
+                    kc = make_kc(s.undecorated, lru.key_f, knobs['maxsize'])
+                    import functools
+                    functools.update_wrapper(kc, s.undecorated)
+                    s.bind_mc(kc)
+            else:
+                kc = s.orig_mc
+
+            def make_call(op, T):
+                H = tg.build_handlers(op['custom'])
+                if op['op'] == 'lookup':
+                    def call():
+                        conv = conv_mod.make_converter(T, conv_mod.ConverterHandlers.make(H))
+                        return [type(conv).__name__, conv.expected()]
+                    return call
+                data = tg.dec(op['data'])
+                return lambda: pane.from_data(data, T, custom=H)
+
+            def fp_of(fn):
+                try:
+                    return ['ok', fp_value(fn())]
+                except BaseException as e:  # noqa
+                    if isinstance(e, (SystemExit, KeyboardInterrupt, HarnessError)):
+                        raise
+                    return fp_exception(e)
+
+            def get_T(op):
+                if op['op'] == 'inline':
+                    try:
+                        return tg.build(op['t'], world)
+                    except HarnessError:
+                        raise
+                    except Exception:
+                        return None
+                return world.refs.get(op['root'])
+
+            # reference outcomes, computed sequentially with memoisation bypassed
+            saved = s.current_mc
+            s.bind_mc(s.undecorated)
+            try:
+                for ops in plan['threads']:
+                    exp = []
+                    for op in ops:
+                        T = get_T(op)
+                        exp.append(None if T is None else fp_of(make_call(op, T)))
+                        T = None
+                    expected.append(exp)
+            finally:
+                s.bind_mc(saved)
+
+            def body(ops, out):
+                def run():
+                    for op in ops:
+                        T = get_T(op)
+                        if T is None:
+                            out.append(None)
+                            continue
+                        out.append(fp_of(make_call(op, T)))
+                        T = None
+                return run
+            for ops in plan['threads']:
+                out = []
+                results.append(out)
+                sched.spawn(body(ops, out))
+        try:
+            sched.run()
+        except Deadlock as e:
+            violation = {'kind': 'deadlock', 'detail': str(e)}
+        except StepLimit as e:
+            violation = {'kind': 'no_progress', 'detail': str(e)}
+        trace.add('schedule', len(sched.schedule_out), h64(canon(sched.schedule_out)) % 10**12, sched.switches)
+        count('sched_steps', sched.steps)
+        count('context_switches', sched.switches)
+        locks = [getattr(kc, '_lock', None)] if kc is not None else []
+        for lk in locks:
+            if isinstance(lk, SimRLock):
+                count('lock_contended', lk.contended)
+                count('lock_acquisitions', lk.acquisitions)
+        if violation is None:
+            for ti, t in enumerate(sched.threads):
+                if t.exc is not None:
+                    violation = {'kind': 'exception_escaped', 'detail': f"thread {ti}: {type(t.exc).__name__}: {mask(str(t.exc))[:200]}"}
+                    break
+        if violation is None:
+            for ti, (got, exp) in enumerate(zip(results, expected)):
+                trace.add('thread', ti, [h64(canon(order_free(g))) % 10**9 if g is not None else None for g in got])
+                if len(got) != len(exp):
+                    violation = {'kind': 'no_progress', 'detail': f"thread {ti} finished {len(got)} of {len(exp)} calls"}
+                    break
+                for ci, (g, e) in enumerate(zip(got, exp)):
+                    if g != e:
+                        violation = {'kind': 'schedule_dependent',
+                                     'detail': f"thread {ti} call {ci}: under this interleaving {Exec._short(g)} but freshly built {Exec._short(e)}"}
+                        break
+                if violation:
+                    break
+        if violation is None and kc is not None:
+            try:
+                _check_kc_invariants(kc, count)
+            except Violation as v:
+                violation = {'kind': v.kind, 'detail': v.detail}
+    finally:
+        alloc.active = False
+        s.restore()
+        world.clear()
+        gc.enable()
+    if violation is not None:
+        violation.update({'op_index': 0, 'op': 'threads', 'signature': 'threads:' + violation['kind']})
+        trace.add('violation', violation['kind'], violation['detail'])
+    counters['sim_id_calls'] = alloc.calls
+    res = {'digest': trace.digest(), 'violation': violation, 'counters': counters, 'states': [],
+           'nontrivial': sched.switches > 0, 'nops': sum(len(x) for x in plan['threads']),
+           'schedule': sched.schedule_out}
+    if want_trace:
+        res['trace'] = trace.events + [('schedule_full', sched.schedule_out)]
+    return res
+
+
+def _check_kc_invariants(mc, count):
+    cache = getattr(mc, 'cache', None)
+    maxsize = getattr(mc, 'maxsize', None)
+    if not isinstance(cache, dict) or maxsize is None:
+        return
+    if len(cache) > max(maxsize, 0):
+        raise Violation('lru_oversize', f"LRU memo holds {len(cache)} entries, maxsize={maxsize}")
+    root = getattr(mc, '_root', None)
+    if not isinstance(root, list):
+        return
+    n = 0
+    link = root[1]
+    while link is not root:
+        n += 1
+        if n > len(cache) + 1:
+            break
+        if cache.get(link[2]) is not link:
+            raise Violation('lru_corrupt', "LRU ring node's key does not map back to the node")
+        link = link[1]
+    if n != len(cache):
+        raise Violation('lru_corrupt', f"LRU ring has {n} nodes but the dict has {len(cache)}")
+    if len(cache) >= maxsize:
+        count('lru_full_states')
+
+
+# ---------------------------------------------------------------------------------------------
 # minimisation
+
+def shrink_candidates_threads(plan, res):
+    from .shrink import clone, without
+    th = plan['threads']
+    # fewer threads
+    if len(th) > 2:
+        for i in range(len(th)):
+            c = clone(plan)
+            c['threads'] = without(th, {i})
+            c.pop('schedule', None)
+            yield c
+    # fewer calls per thread
+    for i, ops in enumerate(th):
+        for j in range(len(ops)):
+            if len(ops) > 1:
+                c = clone(plan)
+                c['threads'][i] = without(ops, {j})
+                c.pop('schedule', None)
+                yield c
+    for j in range(len(plan.get('setup', []))):
+        c = clone(plan)
+        c['setup'] = without(plan['setup'], {j})
+        c.pop('schedule', None)
+        yield c
+    # explicit schedule with fewer context switches: pin the recorded schedule, then merge stretches
+    sch = plan.get('schedule') or res.get('schedule')
+    if sch:
+        if plan.get('schedule') is None:
+            c = clone(plan)
+            c['schedule'] = list(sch)
+            yield c
+        # replace a stretch by "keep running the thread that ran before it"
+        i = 1
+        while i < len(sch):
+            if sch[i] != sch[i - 1]:
+                j = i
+                while j < len(sch) and sch[j] == sch[i]:
+                    j += 1
+                c = clone(plan)
+                c['schedule'] = sch[:i] + [sch[i - 1]] * (j - i) + sch[j:]
+                yield c
+                c = clone(plan)
+                c['schedule'] = sch[:i]
+                yield c
+                i = j
+            else:
+                i += 1
+    if plan['knobs'].get('p_recycle'):
+        c = clone(plan)
+        c['knobs']['p_recycle'] = 0.0
+        yield c
+
 
 def shrink_candidates(plan, res):
     from .shrink import chunks_to_drop, clone, without
+    if plan['cls'] == 'threads':
+        yield from shrink_candidates_threads(plan, res)
+        return
     v = res.get('violation')
     ops = plan['ops']
     if v and v['op_index'] + 1 < len(ops):
@@ -849,9 +1180,9 @@ ASSUMPTIONS = [
 
 def tier_config(tier):
     if tier == 'quick':
-        return {'classes': [('norecycle', 1500), ('recycle', 2500), ('lru', 1000)], 'chunk': 25, 'selftest_n': 90,
+        return {'classes': [('norecycle', 1500), ('recycle', 2500), ('lru', 1000), ('threads', 2500)], 'chunk': 25, 'selftest_n': 120,
                 'sample': 1, 'hang_s': 600}
-    return {'classes': [('norecycle', 3000), ('recycle', 5000), ('lru', 2000)], 'chunk': 25, 'selftest_n': 600,
+    return {'classes': [('norecycle', 3000), ('recycle', 5000), ('lru', 2000), ('threads', 6000)], 'chunk': 25, 'selftest_n': 600,
             'sample': 1, 'hang_s': 900, 'repeat': True, 'budget_s': 900}
 
 
